@@ -669,8 +669,8 @@ def fam_handles(cfg, tier, rng):
     L = 3 if tier == "quick" else 4
     out = []
     other_len = max_len(cfg, 2)
-    reads = list(range(0, 8))
-    writes = list(range(0, 11))
+    reads = list(range(0, 13))
+    writes = list(range(0, 15))
     for n in range(0, max_len(cfg, L) + 1):
         pre = prefix(cfg, [n, other_len])
         post = ["iter ref 0 " + "F" * (n + 1), "dropvec 0", "dropvec 1"]
